@@ -5,7 +5,7 @@
    (mt_b) ANY throw of frame(), parameter(), point(frames), point(name)/analog(name)-before-data leaves the object
    as it was, because the updaters that run after the mutation do not throw (Proofs_Updaters.v); the same for
    analog(frames) on frames of uniform shape (Proofs_AnalogCol.v); lock/unlock are trivial (C10_unknown_group). *)
-From EZ Require Import Base Types Api Proofs_Param Proofs_Store Proofs_Guards Proofs_Refuse Spec_Typed Proofs_Updaters Proofs_AnalogCol Float32 Run.
+From EZ Require Import Base Types Api Proofs_Param Proofs_Store Proofs_Guards Proofs_Refuse Spec_Typed Proofs_Updaters Proofs_AnalogCol Spec_Inv Float32 Run.
 Local Open Scope N_scope.
 
 Definition C10_full_statement : Prop := forall f_key f_tosize f_div f_is_zero s o e s',
@@ -152,3 +152,21 @@ Example C10_nonvacuous :
              step_x s1 (OFrame (mkFrame [mkPoint [97] 0 0 0 0] []) None) = RThrow RuntimeError s1.
 Proof. eexists. split; [vm_compute; reflexivity|]. vm_compute; reflexivity. Qed.
 Print Assumptions C10_nonvacuous.
+
+(* the repaired defect 4562b61 on the executable instance: an object with one point and one frame whose ANALOG group holds NO
+   parameter (a file may come so: Optotrak); point("n") is accepted, every frame gains the point, POINT:USED follows, and the
+   empty group is left alone *)
+Definition c10_empty_analog : state :=
+  let rate := mkParam nm_RATE [] false TFloat [1] [] [1120403456] [] in
+  match step_x init (OPoint [97]) with ROk _ s1 =>
+  match step_x s1 (OParam nm_POINT rate) with ROk _ s2 =>
+  match step_x s2 (OFrame (mkFrame [mkPoint [97] 1 2 3 4] []) None) with ROk _ s3 =>
+    set_groups s3 (map (fun g => if bstr_eqb (g_name g) nm_ANALOG then g_set_params g [] else g) (groups s3))
+  | _ => init end | _ => init end | _ => init end.
+Example C10_empty_analog_group_accepts_a_point :
+  exists s', step_x c10_empty_analog (OPoint [110]) = ROk tt s' /\
+    map (fun f => map pt_name (fr_pts f)) (frames s') = [[[97]; [110]]] /\
+    lk_int0 (groups s') nm_POINT nm_USED = Some 2 /\
+    group_named (groups s') nm_ANALOG = Ok (mkGroup nm_ANALOG [] false []).
+Proof. eexists. split; [vm_compute; reflexivity|]. repeat split; vm_compute; reflexivity. Qed.
+Print Assumptions C10_empty_analog_group_accepts_a_point.
